@@ -58,6 +58,7 @@ type convRepo struct {
 	BlobArts []int      `json:"blob_arts"` // artifacts only present as blobs (reachable through the fallback index only)
 	FB       []convFB   `json:"fb"`
 	Resp     []convResp `json:"resp"`
+	Sha512   []int      `json:"sha512"` // artifacts that are stored and listed under their sha512 digest
 }
 
 type convSpec struct {
@@ -96,10 +97,20 @@ func (w *World) seedConv(root, repo string, cr convRepo) *convTruth {
 		tr.blobs[d] = data
 		w.m.usedDigests[d] = true
 	}
+	algoOfArt := map[int]string{}
+	for _, a := range cr.Sha512 {
+		algoOfArt[a] = "sha512"
+	}
+	dig := func(i int) string {
+		if algoOfArt[i] != "" {
+			return objs[i].digest(algoOfArt[i])
+		}
+		return objs[i].digest("sha256")
+	}
 	var putObj func(i int) string
 	putObj = func(i int) string {
 		ob := objs[i]
-		d := ob.digest("sha256")
+		d := dig(i)
 		putBlob(d, ob.data)
 		if ob.Kind == "image" {
 			cd := objs[ob.Config].digest(ob.RefAlgo)
@@ -170,7 +181,7 @@ func (w *World) seedConv(root, repo string, cr convRepo) *convTruth {
 		for _, e := range fb.Ents {
 			ob := objs[e.Art]
 			x := artMan(e.Art)
-			d := ob.digest("sha256")
+			d := dig(e.Art)
 			desc := descJSON{MediaType: ob.mediaType(), Digest: d, Size: int64(len(ob.data)), ArtifactType: x.artifactType(), Annotations: x.view.annot}
 			switch e.Kind {
 			case "missing":
@@ -223,7 +234,7 @@ func (w *World) seedConv(root, repo string, cr convRepo) *convTruth {
 				present[a] = true
 			}
 			listedAnywhere[a] = true
-			descs = append(descs, descJSON{MediaType: ob.mediaType(), Digest: ob.digest("sha256"), Size: int64(len(ob.data)), ArtifactType: x.artifactType(), Annotations: x.view.annot})
+			descs = append(descs, descJSON{MediaType: ob.mediaType(), Digest: dig(a), Size: int64(len(ob.data)), ArtifactType: x.artifactType(), Annotations: x.view.annot})
 		}
 		body, _ := json.Marshal(map[string]any{"schemaVersion": 2, "mediaType": mtOCIIndex, "manifests": descs})
 		rd := digestOf("sha256", body)
@@ -237,7 +248,7 @@ func (w *World) seedConv(root, repo string, cr convRepo) *convTruth {
 		if s == "" {
 			continue
 		}
-		d := objs[a].digest("sha256")
+		d := dig(a)
 		tr.arts[d] = artMan(a)
 		w.m.usedDigests[s] = true
 		if listedAnywhere[a] {
@@ -659,7 +670,7 @@ func planC17(prop string, seed uint64, tier string, idx int) *Plan {
 	}
 	spec := convSpec{}
 	for range g.p.Repos {
-		cr := convRepo{Tags: []convTag{}, Untagged: []int{}, TopArts: []int{}, BlobArts: []int{}, FB: []convFB{}, Resp: []convResp{}}
+		cr := convRepo{Tags: []convTag{}, Untagged: []int{}, TopArts: []int{}, BlobArts: []int{}, FB: []convFB{}, Resp: []convResp{}, Sha512: []int{}}
 		used := map[int]bool{}
 		for si, s := range subjects {
 			if g.p.Objs[s].Subject >= 0 {
@@ -742,6 +753,16 @@ func planC17(prop string, seed uint64, tier string, idx int) *Plan {
 			}
 		}
 		cr.TopArts = ta
+		var usedArts []int
+		for a := range used {
+			usedArts = append(usedArts, a)
+		}
+		sort.Ints(usedArts)
+		for _, a := range usedArts {
+			if g.p.Objs[a].Subject >= 0 && g.r.chance(20) {
+				cr.Sha512 = append(cr.Sha512, a)
+			}
+		}
 		// some unrelated content
 		if g.r.chance(50) {
 			cr.Tags = append(cr.Tags, convTag{Obj: g.newImage(-1, -1), Tag: g.r.str("latest", "stable", "sha256-notafallbacktag")})
